@@ -56,7 +56,7 @@ def run_case(case, seed):
     A, Uq, Vq = SG.build(m, n, vals, case["kU"], case["kV"], fill, variant=len(vals) + int(sum(vals) * 4))
     info = SG.cluster_info(vals, m, n)
     degenerate = SG.degenerate_within(vals, m, n, R)
-    tags = {"entry": case["entry"], "degenerate": degenerate, **info}
+    tags = {"entry": case["entry"], "degenerate": degenerate, "factors": case["kU"], **info}
     Aq = G.to_quat(A)
     before = Aq.tobytes()
     if R is None:
